@@ -39,10 +39,20 @@ def match_finding(findings, prop, proof, r):
             return kf
     return None
 
+def machinery_failure(r):
+    """An arithmetic/pointer safety check that fails inside the text of a contract or a model
+    (file under /verif) is a bug of the machinery (unguarded arithmetic in a spec), never a verdict."""
+    f, l, fn = loc_of(r)
+    prop = r.get('property', '')
+    kind = prop.split('.')[-2] if prop.count('.') >= 2 else ''
+    if f and (f.startswith(VERIF) or f.startswith('contracts/') or f.startswith('models/')) and kind in ('overflow', 'pointer_dereference', 'pointer_arithmetic', 'undefined-shift', 'division-by-zero', 'conversion', 'array_bounds', 'pointer_primitives', 'pointer'):
+        return True
+    return False
+
 def run_check(prop, tier, only=None, jobs=14, show=None):
     t0 = time.time()
     seed = int(os.environ.get('VERIF_SEED', '0') or 0)
-    evpath = os.path.join(VERIF, 'evidence', prop + '.json')
+    evpath = os.path.join(os.environ.get('VERIF_EVIDENCE_DIR', os.path.join(VERIF, 'evidence')), prop + '.json')
     specs = sorted(glob.glob(os.path.join(VERIF, 'contracts', prop, '*.spec.c')))
     if not specs:
         print('UNDECIDED property=%s reason=no contracts for this property' % prop); return 2
@@ -117,6 +127,10 @@ def run_check(prop, tier, only=None, jobs=14, show=None):
                 if 'postcondition' in r.get('property', '') or 'loop_invariant' in r.get('property', ''):
                     samples.append(obligation_record(u, p, r)); break
         unknown = []
+        mach = [r for r in fails if machinery_failure(r)]
+        if mach:
+            undecided.append((u.name + ':' + p.target, 'check failed inside a contract/model expression (machinery, not a verdict): %s %s' % (mach[0].get('property'), mach[0].get('description'))))
+            fails = [r for r in fails if not machinery_failure(r)]
         for r in fails:
             kf = match_finding(findings, prop, p, r)
             if kf: known_hits.append((kf, u, p, r))
@@ -230,7 +244,7 @@ def assumption_scan(prop):
 # ---------------------------------------------------------------------- replay
 def make_replay(prop, unit, proof, fails):
     """Write the replay file for a violation; try the native replay driver of the property."""
-    d = os.path.join(VERIF, 'build', 'replay', prop)
+    d = os.path.join(engine.BUILD, 'replay', prop)
     os.makedirs(d, exist_ok=True)
     path = os.path.join(d, '%s.%s.json' % (unit.name, proof.target))
     trace = cbmc_trace(unit, proof, fails[0])
